@@ -21,7 +21,13 @@ Record params := {
 (* ------------------------------------------------------------------ *)
 (* 1. locks with a critical-section client                             *)
 
-Inductive lkind := KSpin | KSync | KMutex | KTry.   (* KTry: acquire by a muggle_mutex_trylock / yield loop *)
+(* KTry: acquire by a muggle_mutex_trylock / yield loop.
+   KNest / KNestTry: the mutex client in which thread 0, inside its critical section, locks the mutex AGAIN
+   (a nested muggle_mutex_lock by the owner); the other threads contend with muggle_mutex_lock (KNest) or with
+   one muggle_mutex_trylock per iteration, giving the iteration up when refused (KNestTry).  muggle_mutex_t is
+   a default (non-recursive, non-error-checking) pthread mutex: the nested lock never returns. *)
+Inductive lkind := KSpin | KSync | KMutex | KTry | KNest | KNestTry.
+Definition nests (k : lkind) : bool := match k with KNest | KNestTry => true | _ => false end.
 
 Inductive lpc :=
   | LStart      (* plain segment before the acquire operation (or before thread exit) *)
@@ -31,6 +37,7 @@ Inductive lpc :=
   | LWait       (* sync: muggle_sync_wait(lock, 1) *)
   | LBlocked    (* sync: asleep in the futex *)
   | LEnterSeg   (* plain: in_cs++, note enter, read counter *)
+  | LNest       (* nested kinds, thread 0: muggle_mutex_lock by the holder itself *)
   | LCs         (* harness plain operation inside the critical section *)
   | LExitSeg    (* plain: counter := read+1, in_cs--, note exit *)
   | LRel        (* clear / store 0 / pthread_mutex_unlock *)
@@ -130,12 +137,21 @@ Definition lstep (P : params) (fixed : bool) (s : lsys) (t : nat) (ch : nat) : o
           Some (set_thr (set_lock s 1 (rmw_stamp mo (l_seen x) (l_stamp s))) t x',
                 LEv (Ev OCasW lock_cell mo 0 1 1))
       else Some (go LAfterFail, LEv (Ev OCasW lock_cell mo (l_lock s) 1 0))
-    | KMutex =>
+    | KMutex | KNest =>
       if l_lock s =? 0 then
         let x' := {| l_pc := LEnterSeg; l_iters := l_iters x;
                      l_seen := Nat.max (l_seen x) (l_stamp s); l_reg := l_reg x |} in
         Some (set_thr (set_lock s 1 (l_stamp s)) t x', LEv (Ev OMlock lock_cell MoNone 0 0 0))
       else None   (* blocked until the owner unlocks *)
+    | KNestTry =>
+      (* thread 0 takes the mutex with muggle_mutex_lock, the others with a single muggle_mutex_trylock *)
+      if l_lock s =? 0 then
+        let x' := {| l_pc := LEnterSeg; l_iters := l_iters x;
+                     l_seen := Nat.max (l_seen x) (l_stamp s); l_reg := l_reg x |} in
+        Some (set_thr (set_lock s 1 (l_stamp s)) t x',
+              LEv (if Nat.eqb t 0 then Ev OMlock lock_cell MoNone 0 0 0 else Ev OMtry lock_cell MoNone 1 0 0))
+      else if Nat.eqb t 0 then None
+      else Some (go LAfterFail, LEv (Ev OMtry lock_cell MoNone 0 0 0))
     | KTry =>
       (* pthread_mutex_trylock never blocks: it takes a free mutex (result 1) or reports busy (result 0);
          muggle_mutex_trylock must map busy to a refusal, on which the client yields and retries *)
@@ -148,6 +164,10 @@ Definition lstep (P : params) (fixed : bool) (s : lsys) (t : nat) (ch : nat) : o
   | LAfterFail =>
     match l_kind s with
     | KSpin | KTry => Some (go LYield, LPlain [])
+    | KNestTry =>
+      (* refused: this iteration is given up; the same plain segment runs to the next attempt or to the exit *)
+      Some (set_thr s t {| l_pc := match pred (l_iters x) with O => LFin | S _ => LAcq end;
+                           l_iters := pred (l_iters x); l_seen := l_seen x; l_reg := l_reg x |}, LPlain [])
     | _ => Some (go LWait, LPlain [])
     end
   | LYield => Some (go LStart, LEv (Ev OYield 0%nat MoNone 0 0 0))
@@ -162,13 +182,19 @@ Definition lstep (P : params) (fixed : bool) (s : lsys) (t : nat) (ch : nat) : o
   | LEnterSeg =>
     let over := negb (l_incs s =? 0) in
     let cov := Nat.eqb (l_seen x) (l_cver s) in
-    let x' := {| l_pc := LCs; l_iters := l_iters x; l_seen := l_seen x; l_reg := l_counter s |} in
+    let x' := {| l_pc := if nests (l_kind s) && Nat.eqb t 0 then LNest else LCs;
+                 l_iters := l_iters x; l_seen := l_seen x; l_reg := l_counter s |} in
     Some ({| l_kind := l_kind s; l_n := l_n s; l_lock := l_lock s; l_stamp := l_stamp s;
              l_counter := l_counter s; l_cver := l_cver s; l_incs := l_incs s + 1;
              l_overlaps := if over then S (l_overlaps s) else l_overlaps s;
              l_uncovered := if cov then l_uncovered s else S (l_uncovered s);
              l_thr := upd (l_thr s) t x' |},
           LPlain [(if over then note_overlap else note_enter, 0)])
+  | LNest =>
+    (* pthread_mutex_lock on a default mutex that is held: blocked until it is free.  The caller is the holder,
+       so it never is (nested_lock_by_owner_is_stuck): the documented self-deadlock *)
+    if l_lock s =? 0 then Some (set_thr (set_lock s 1 (l_stamp s)) t (set_pc x LCs), LEv (Ev OMlock lock_cell MoNone 0 0 0))
+    else None
   | LCs => Some (go LExitSeg, LEv (Ev OPlain 1%nat MoNone 0 0 0))
   | LExitSeg =>
     let x' := {| l_pc := LRel; l_iters := l_iters x; l_seen := S (l_cver s); l_reg := l_reg x |} in
@@ -187,7 +213,7 @@ Definition lstep (P : params) (fixed : bool) (s : lsys) (t : nat) (ch : nat) : o
       let mo := mo_sync_store P in
       Some (set_thr (set_lock s 0 (rel_stamp mo (l_seen x))) t (set_pc x LRelSeg),
             LEv (Ev OStore lock_cell mo 0 0 0))
-    | KMutex | KTry =>
+    | KMutex | KTry | KNest | KNestTry =>
       Some (set_thr (set_lock s 0 (l_seen x)) t x1, LEv (Ev OMunlock lock_cell MoNone 0 0 0))
     end
   | LRelSeg => Some (go LWake, LPlain [])
@@ -202,81 +228,100 @@ Definition lstep (P : params) (fixed : bool) (s : lsys) (t : nat) (ch : nat) : o
   end.
 
 (* ------------------------------------------------------------------ *)
-(* 2. call_once                                                        *)
+(* 2. call_once: any number of once-flags in flight                    *)
 
 Inductive opc :=
   | CStart | CCas | CFunc1 | CBody | CFunc2 | CStore | CLoadSeg | CLoad | CRetSeg | CFin | CDone.
 
-(* o_calls: calls of muggle_call_once this thread still has to make after the current one (a thread may call
-   again after READY); o_rets: calls it has completed *)
-Record othread := { o_pc : opc; o_seen : nat; o_calls : nat; o_rets : nat }.
+(* A thread runs a script of calls muggle_call_once(&flag[c], func[c]): o_cur is the flag of the call in
+   progress, o_todo the flags of the calls still to make (the same flag may come again: a call after READY).
+   Per flag c: the plain cell written by func[c] (o_done c, version o_dver c), the thread's view of it
+   (o_seen x c) and the number of calls on c the thread has completed (o_rets x c).  The stamp of flag c carries
+   the view of func[c]'s cell only; that a release also publishes the storer's view of the other flags' cells is
+   left out (the model promises less visibility than C11, never more). *)
+Record othread := { o_pc : opc; o_cur : nat; o_todo : list nat; o_seen : nat -> nat; o_rets : nat -> nat }.
 Record osys := {
   o_n : nat;
-  o_flag : Z;            (* 0 INIT, 1 WAIT, 2 READY *)
-  o_stamp : nat;
-  o_runs : nat;          (* how many times the function body started *)
-  o_done : Z;            (* plain cell written by the function *)
-  o_dver : nat;
-  o_early : nat;         (* callers that returned before the body finished or without seeing its write *)
+  o_flag : nat -> Z;            (* 0 INIT, 1 WAIT, 2 READY *)
+  o_stamp : nat -> nat;
+  o_runs : nat -> nat;          (* how many times the function body of this flag started *)
+  o_done : nat -> Z;            (* plain cell written by the function of this flag *)
+  o_dver : nat -> nat;
+  o_early : nat -> nat;         (* callers that returned before the body finished or without seeing its write *)
   o_thr : nat -> othread;
 }.
-Definition oinit (n calls : nat) : osys :=
-  {| o_n := n; o_flag := 0; o_stamp := 0; o_runs := 0; o_done := 0; o_dver := 0; o_early := 0;
-     o_thr := fun _ => {| o_pc := CStart; o_seen := 0; o_calls := pred calls; o_rets := 0 |} |}.
+(* scripts t = the flags thread t calls, in order (an empty script counts as one call on flag 0) *)
+Definition oinit (n : nat) (scripts : nat -> list nat) : osys :=
+  {| o_n := n; o_flag := fun _ => 0; o_stamp := fun _ => 0%nat; o_runs := fun _ => 0%nat; o_done := fun _ => 0;
+     o_dver := fun _ => 0%nat; o_early := fun _ => 0%nat;
+     o_thr := fun t => {| o_pc := CStart; o_cur := hd 0%nat (scripts t); o_todo := tl (scripts t);
+                          o_seen := fun _ => 0%nat; o_rets := fun _ => 0%nat |} |}.
+(* the scenarios with one flag: every thread calls it [calls] times *)
+Definition oinit1 (n calls : nat) : osys := oinit n (fun _ => repeat 0%nat calls).
+
 Definition oset (s : osys) (t : nat) (x : othread) : osys :=
   {| o_n := o_n s; o_flag := o_flag s; o_stamp := o_stamp s; o_runs := o_runs s; o_done := o_done s;
      o_dver := o_dver s; o_early := o_early s; o_thr := upd (o_thr s) t x |}.
-Definition flag_cell : nat := 0%nat.
+Definition flag_cell (c : nat) : nat := (2 * c)%nat.
+Definition body_cell (c : nat) : nat := (2 * c + 1)%nat.
 Definition note_fbegin : nat := 4%nat.
 Definition note_fend : nat := 5%nat.
 Definition note_ret : nat := 6%nat.
 
 Definition ostep (P : params) (s : osys) (t : nat) (ch : nat) : option (osys * label) :=
   let x := o_thr s t in
-  let mkt p sn := {| o_pc := p; o_seen := sn; o_calls := o_calls x; o_rets := o_rets x |} in
-  let go p := oset s t (mkt p (o_seen x)) in
+  let c := o_cur x in
+  let mkt p sn := {| o_pc := p; o_cur := c; o_todo := o_todo x; o_seen := upd (o_seen x) c sn; o_rets := o_rets x |} in
+  let go p := oset s t {| o_pc := p; o_cur := c; o_todo := o_todo x; o_seen := o_seen x; o_rets := o_rets x |} in
   if Nat.leb (o_n s) t then None else
   match o_pc x with
   | CStart => Some (go CCas, LPlain [])
   | CCas =>
     let mo := mo_once_cas P in
-    if o_flag s =? 0 then
-      Some ({| o_n := o_n s; o_flag := 1; o_stamp := rmw_stamp mo (o_seen x) (o_stamp s);
+    if o_flag s c =? 0 then
+      Some ({| o_n := o_n s; o_flag := upd (o_flag s) c 1;
+               o_stamp := upd (o_stamp s) c (rmw_stamp mo (o_seen x c) (o_stamp s c));
                o_runs := o_runs s; o_done := o_done s; o_dver := o_dver s; o_early := o_early s;
-               o_thr := upd (o_thr s) t (mkt CFunc1 (acq_join mo (o_seen x) (o_stamp s))) |},
-            LEv (Ev OCasS flag_cell mo 0 1 1))
-    else Some (go CLoadSeg, LEv (Ev OCasS flag_cell mo (o_flag s) 1 0))
+               o_thr := upd (o_thr s) t (mkt CFunc1 (acq_join mo (o_seen x c) (o_stamp s c))) |},
+            LEv (Ev OCasS (flag_cell c) mo 0 1 1))
+    else Some (go CLoadSeg, LEv (Ev OCasS (flag_cell c) mo (o_flag s c) 1 0))
   | CFunc1 =>
-    Some ({| o_n := o_n s; o_flag := o_flag s; o_stamp := o_stamp s; o_runs := S (o_runs s);
+    Some ({| o_n := o_n s; o_flag := o_flag s; o_stamp := o_stamp s; o_runs := upd (o_runs s) c (S (o_runs s c));
              o_done := o_done s; o_dver := o_dver s; o_early := o_early s;
-             o_thr := upd (o_thr s) t (mkt CBody (o_seen x)) |},
-          LPlain [(note_fbegin, 0)])
-  | CBody => Some (go CFunc2, LEv (Ev OPlain 1%nat MoNone 0 0 0))
+             o_thr := upd (o_thr s) t (mkt CBody (o_seen x c)) |},
+          LPlain [(note_fbegin, Z.of_nat c)])
+  | CBody => Some (go CFunc2, LEv (Ev OPlain (body_cell c) MoNone 0 0 0))
   | CFunc2 =>
     Some ({| o_n := o_n s; o_flag := o_flag s; o_stamp := o_stamp s; o_runs := o_runs s;
-             o_done := 1; o_dver := S (o_dver s); o_early := o_early s;
-             o_thr := upd (o_thr s) t (mkt CStore (S (o_dver s))) |},
-          LPlain [(note_fend, 0)])
+             o_done := upd (o_done s) c 1; o_dver := upd (o_dver s) c (S (o_dver s c)); o_early := o_early s;
+             o_thr := upd (o_thr s) t (mkt CStore (S (o_dver s c))) |},
+          LPlain [(note_fend, Z.of_nat c)])
   | CStore =>
     let mo := mo_once_store P in
-    Some ({| o_n := o_n s; o_flag := 2; o_stamp := rel_stamp mo (o_seen x);
+    Some ({| o_n := o_n s; o_flag := upd (o_flag s) c 2; o_stamp := upd (o_stamp s) c (rel_stamp mo (o_seen x c));
              o_runs := o_runs s; o_done := o_done s; o_dver := o_dver s; o_early := o_early s;
-             o_thr := upd (o_thr s) t (mkt CRetSeg (o_seen x)) |},
-          LEv (Ev OStore flag_cell mo 2 0 0))
+             o_thr := upd (o_thr s) t (mkt CRetSeg (o_seen x c)) |},
+          LEv (Ev OStore (flag_cell c) mo 2 0 0))
   | CLoadSeg => Some (go CLoad, LPlain [])
   | CLoad =>
     let mo := mo_once_load P in
-    let x' := mkt (if o_flag s =? 2 then CRetSeg else CLoadSeg) (acq_join mo (o_seen x) (o_stamp s)) in
-    Some (oset s t x', LEv (Ev OLoad flag_cell mo (o_flag s) 0 0))
+    let x' := mkt (if o_flag s c =? 2 then CRetSeg else CLoadSeg) (acq_join mo (o_seen x c) (o_stamp s c)) in
+    Some (oset s t x', LEv (Ev OLoad (flag_cell c) mo (o_flag s c) 0 0))
   | CRetSeg =>
-    let good := (o_done s =? 1) && Nat.eqb (o_seen x) (o_dver s) in
+    let good := (o_done s c =? 1) && Nat.eqb (o_seen x c) (o_dver s c) in
+    (* the caller returns; if it has another call to make the same plain segment runs up to that call's
+       compare-exchange *)
+    let x' := match o_todo x with
+              | [] => {| o_pc := CFin; o_cur := c; o_todo := []; o_seen := o_seen x;
+                         o_rets := upd (o_rets x) c (S (o_rets x c)) |}
+              | g :: r => {| o_pc := CCas; o_cur := g; o_todo := r; o_seen := o_seen x;
+                             o_rets := upd (o_rets x) c (S (o_rets x c)) |}
+              end in
     Some ({| o_n := o_n s; o_flag := o_flag s; o_stamp := o_stamp s; o_runs := o_runs s;
              o_done := o_done s; o_dver := o_dver s;
-             o_early := if good then o_early s else S (o_early s);
-             (* the caller returns; if it calls again the same plain segment runs up to the next compare-exchange *)
-             o_thr := upd (o_thr s) t {| o_pc := match o_calls x with O => CFin | S _ => CCas end;
-                                         o_seen := o_seen x; o_calls := pred (o_calls x); o_rets := S (o_rets x) |} |},
-          LPlain [(note_ret, o_done s)])
+             o_early := if good then o_early s else upd (o_early s) c (S (o_early s c));
+             o_thr := upd (o_thr s) t x' |},
+          LPlain [(note_ret, 2 * Z.of_nat c + o_done s c)])
   | CFin => Some (go CDone, LExit)
   | CDone => None
   end.
